@@ -1295,8 +1295,8 @@ def rule_generated_name_whole(ctx):
                 if x[0] == "idx" and is_int(x[2]) and int_val(x[2]) >= plen:
                     rest = True
             if rest:
-                ctx.holds("GENNAME", key, f.where(line), "the \\"fakeDim\\" prefix test is joined by a test of the characters after the prefix", nontrivial=True)
+                ctx.holds("GENNAME", key, f.where(line), 'the "fakeDim" prefix test is joined by a test of the characters after the prefix', nontrivial=True)
             else:
-                ctx.violated("GENNAME", key, f.where(line), "a name is taken for a generated one on its \\"fakeDim\\" prefix alone: a user's name with that prefix is replaced by fakeDim<N> when the file is written")
+                ctx.violated("GENNAME", key, f.where(line), 'a name is taken for a generated one on its "fakeDim" prefix alone: a user name with that prefix is replaced by fakeDim<N> when the file is written')
     ctx.floor("GENNAME", 1, n, "(decisions that a dimension name is a generated one)")
     return n
